@@ -385,6 +385,14 @@ def answer (line : String) : String :=
         | _, _, _ => "panic"
       | _ => "bad-op"
     | none => "bad-op"
+  | "join" :: acc :: rest =>
+    -- `acc.and(&v)` and `v.to_keyed_vec(&acc)`
+    match parseHex acc, parseTy rest with
+    | some acc, some (ty, r) =>
+      match parseVal r with
+      | some (v, []) => showResBytes (Impl.joinerAnd acc ty v) ++ " " ++ showResBytes (Impl.toKeyedVec acc ty v)
+      | _ => "bad-op"
+    | _, _ => "bad-op"
   | "dec" :: rest =>
     match parseTy rest with
     | some (ty, [h]) =>
